@@ -178,9 +178,13 @@ class BaseDiscretizer(BaseEstimator, TransformerMixin):
             else:
                 labels = [value for value in values if value != self.str_nan]  # (removing str_nan)
 
+            # groups in the order of there labels (NaNs are labelled last wherever they are)
+            groups = [value for value in values if value != self.str_nan]
+
             # add NaNs if there are any
             if self.str_nan in values:
                 labels += [self.str_nan]
+                groups += [self.str_nan]
 
             # requested float output (AutoCarver) -> converting to integers
             if output_dtype == "float":
@@ -188,7 +192,7 @@ class BaseDiscretizer(BaseEstimator, TransformerMixin):
 
             # building label per value
             label_per_value: dict[Any, Any] = {}
-            for group_of_values, label in zip(values, labels):
+            for group_of_values, label in zip(groups, labels):
                 for value in values.get(group_of_values):
                     label_per_value.update({value: label})
 
